@@ -58,45 +58,60 @@ struct Search<'a> {
     failed: HashSet<(usize, usize)>,
     reached: usize,
     out: Vec<Placed>,
-    /// spans (start,end) of Unicode-separator words that contain a space
-    spaced_words: Option<Vec<(usize, usize)>>,
+    /// spans (start,end) of the words of the configured separator
+    words: Option<Vec<(usize, usize)>>,
 }
 
-/// Compute spans of words (word part only) that contain a space, using the
-/// library's Unicode separator per paragraph (assume-guarantee on C11).
-fn spaced_word_spans(text: &str, le: &str) -> Vec<(usize, usize)> {
+/// Spans (start, end of the word part) of all words of every paragraph under
+/// the given separator, using the library's own find_words (assume-guarantee
+/// on C11).
+fn word_spans(text: &str, le: &str, sep: Sep) -> Vec<(usize, usize)> {
     let mut spans = Vec::new();
-    #[cfg(feature = "ulb")]
-    {
-        let mut off = 0usize;
-        for para in text.split(le) {
-            let mut p = off;
-            for w in textwrap::WordSeparator::UnicodeBreakProperties.find_words(para) {
-                let wl = w.word.len();
-                if w.word.contains(' ') {
-                    spans.push((p, p + wl));
-                }
-                p += wl + w.whitespace.len();
-            }
-            off += para.len() + le.len();
+    let separator = match sep {
+        Sep::Ascii => textwrap::WordSeparator::AsciiSpace,
+        #[cfg(feature = "ulb")]
+        Sep::Unicode => textwrap::WordSeparator::UnicodeBreakProperties,
+        #[cfg(not(feature = "ulb"))]
+        Sep::Unicode => return spans,
+    };
+    let mut off = 0usize;
+    for para in text.split(le) {
+        let mut p = off;
+        for w in separator.find_words(para) {
+            let wl = w.word.len();
+            spans.push((p, p + wl));
+            p += wl + w.whitespace.len();
         }
-    }
-    #[cfg(not(feature = "ulb"))]
-    {
-        let _ = (text, le);
+        off += para.len() + le.len();
     }
     spans
 }
 
 impl<'a> Search<'a> {
+    fn spans(&mut self) -> &Vec<(usize, usize)> {
+        if self.words.is_none() {
+            self.words = Some(word_spans(self.text, self.le, self.sep));
+        }
+        self.words.as_ref().unwrap()
+    }
+
+    /// A slice may end in a space only strictly inside a word (of the Unicode
+    /// separator) that itself contains a space, and only with break_words.
     fn space_end_allowed(&mut self, e: usize) -> bool {
         if !(self.bw && self.sep == Sep::Unicode) {
             return false;
         }
-        if self.spaced_words.is_none() {
-            self.spaced_words = Some(spaced_word_spans(self.text, self.le));
-        }
-        self.spaced_words.as_ref().unwrap().iter().any(|&(s, t)| s < e && e < t)
+        let text = self.text;
+        self.spans().iter().any(|&(s, t)| s < e && e < t && text.get(s..t).map_or(false, |w| w.contains(' ')))
+    }
+
+    /// An inserted hyphen is legitimate only directly after one of the custom
+    /// splitter's split points of the word containing the position.
+    fn hyphen_allowed(&mut self, e: usize) -> bool {
+        let text = self.text;
+        self.spans().iter().any(|&(s, t)| {
+            s < e && e < t && text.get(s..t).map_or(false, |w| crate::case::custom_split_points(w).contains(&(e - s)))
+        })
     }
 
     fn starts(&self, i: usize, pos: usize) -> Vec<usize> {
@@ -174,7 +189,7 @@ impl<'a> Search<'a> {
                     let e = p + slice.len();
                     let prev_alnum = slice.chars().next_back().map(|c| c.is_alphanumeric()).unwrap_or(false);
                     let inside = e < self.text.len();
-                    if prev_alnum && inside {
+                    if prev_alnum && inside && self.hyphen_allowed(e) {
                         self.out.push(Placed { start: p, end: e, hyphen: true });
                         if self.go(i + 1, e) {
                             return true;
@@ -223,7 +238,7 @@ pub fn place<'a>(text: &'a str, o: &'a OptSpec, lines: &'a [LineIn<'a>]) -> Resu
         failed: HashSet::new(),
         reached: 0,
         out: Vec::new(),
-        spaced_words: None,
+        words: None,
     };
     if s.go(0, 0) {
         Ok(s.out)
